@@ -158,6 +158,47 @@ class Engine:
         return LoudWalk(cfg, flag, flag_sources=sources, top_loop=top_node)
 
 
+def flag_from_error_only(ctx, rule="C21.R9"):
+    """A loop that decides convergence by `flag = error < tol` reports exactly what the tolerance promises.  An additional `flag = True` under
+    some other condition inside the same loop ("all percussions are zero, so nothing acts") declares an iterate converged that the error
+    measure has not accepted; in a cycling iteration (large percussion / zero percussion) the shortcut ends the loop at the zero iterate and
+    neither the raise nor the warning behind the loop can fire."""
+    rep = ctx.rep
+    n = 0
+    for rel, mod in sorted(ctx.repo.modules.items()):
+        if not rel.startswith("cardillo/solver/") and rel != "cardillo/math/fsolve.py":
+            continue
+        for q, fn in mod.defs().items():
+            if not isinstance(fn, ast.FunctionDef):
+                continue
+            def innermost_loop(node):
+                up = getattr(node, "_parent", None)
+                while up is not None and not isinstance(up, (ast.For, ast.While)):
+                    up = getattr(up, "_parent", None)
+                return up
+            for loop in [w for w in walk_no_nested(fn) if isinstance(w, (ast.For, ast.While))]:
+                flags = {}
+                for w in ast.walk(loop):
+                    if innermost_loop(w) is not loop:
+                        continue
+                    if isinstance(w, ast.Assign) and len(w.targets) == 1 and isinstance(w.targets[0], ast.Name) and isinstance(w.value, ast.Compare) \
+                            and any(isinstance(o, (ast.Lt, ast.LtE)) for o in w.value.ops) and "converged" in w.targets[0].id:
+                        flags[w.targets[0].id] = w
+                for name, cmp_ in flags.items():
+                    n += 1
+                    consts = [w for w in ast.walk(loop) if isinstance(w, ast.Assign) and any(isinstance(t, ast.Name) and t.id == name for t in w.targets)
+                              and isinstance(w.value, ast.Constant) and w.value.value is True and innermost_loop(w) is loop]
+                    C = f"{rel}:{q}"
+                    if consts:
+                        rep.bad(rule, C, consts[0], f"`{norm_src(consts[0])}` inside the loop that decides `{norm_src(cmp_)[:60]}`: an iterate is declared converged without the error measure having "
+                                "accepted it; when the iteration cycles through such an iterate the loop ends there and the non-convergence report behind the loop is never reached",
+                                f"{rel}:{consts[0].lineno}")
+                    else:
+                        rep.ok(rule, C, f"`{name}` is set from `{norm_src(cmp_.value)[:50]}` only")
+    if n < 4:
+        raise AnalysisError(f"{rule}: only {n} convergence flags set from an error comparison found")
+
+
 def convergence_reference_not_aliased(ctx, rule="C21.R8"):
     """A convergence test `new - old` can only fail if `old` is another object than `new`.  Pattern that defeats it:
         old = cur                      (alias, no copy)
@@ -302,6 +343,8 @@ def run(ctx):
     rep.rule("C21.R7", "the solvers' warnings are audible: no warn(...) in cardillo/solver or fsolve is issued under a suppressing filter the code itself installed, and no 'ignore' filter is installed for good", 10)
     from .c22 import warnings_audible
     warnings_audible(ctx, "C21.R7", ("cardillo/solver/", "cardillo/math/fsolve.py"), floor_calls=8)
+    rep.rule("C21.R9", "inside an iteration loop the convergence flag comes from the error measure only: no `flag = True` shortcut in a loop that also sets the flag from a comparison with the tolerance", 4)
+    flag_from_error_only(ctx)
     rep.rule("C21.R8", "no convergence difference in cardillo/solver compares an array with an alias of itself (reference bound without copy + in-place update returned by the iteration map)", 0)
     convergence_reference_not_aliased(ctx)
     rep.rule("C21.R6", "the ODE / DAE wrappers build t, q, u of the returned Solution from the integrator's own outputs (.t, .y, .yp), never from the dense-output interpolant or the requested grid: after a failure only integrated instants are returned", 6)
@@ -619,4 +662,9 @@ MUTANTS += [
 ]
 NEUTRAL += [
     dict(id="c21-n-r8", what="consistent_initial_conditions tests convergence on the contact forces against COPIES of the previous iterate", file='cardillo/solver/_base.py', old='        x1 = x0.copy()\n        la_N1 = la_N0[B_N].copy()\n        la_F1 = la_F0[B_F].copy()\n        converged_fixed_point = False\n        for i_fixed_point in range(options.fixed_point_max_iter):\n            # find proximal point\n            la_N1, la_F1 = prox(x1, la_N1, la_F1)\n\n            # compute new rhs\n            b = b0.copy()\n            b[: system.nu] += W_N @ la_N1 + W_F @ la_F1\n\n            # solve linear system\n            x1 = lu.solve(b)\n\n            # convergence in accelerations\n            diff = x1[: system.nu] - x0[: system.nu]\n\n            error_fixed_point = np.max(np.absolute(diff))\n\n            converged_fixed_point = error_fixed_point < options.fixed_point_atol\n            if converged_fixed_point:\n                la_N0[B_N] = la_N1\n                la_F0[B_F] = la_F1\n                break\n            else:\n                # update values\n                x0 = x1.copy()\n\n', new='        la_N1 = la_N0[B_N].copy()\n        la_F1 = la_F0[B_F].copy()\n        converged_fixed_point = False\n        for i_fixed_point in range(options.fixed_point_max_iter):\n            # find proximal point\n            la_N_old, la_F_old = la_N1.copy(), la_F1.copy()\n            la_N1, la_F1 = prox(x0, la_N1, la_F1)\n\n            # compute new rhs\n            b = b0.copy()\n            b[: system.nu] += W_N @ la_N1 + W_F @ la_F1\n\n            # solve linear system\n            x0 = lu.solve(b)\n\n            # convergence in contact forces (the iterated quantities)\n            diff = np.concatenate((la_N1 - la_N_old, la_F1 - la_F_old))\n\n            error_fixed_point = np.max(np.absolute(diff))\n\n            converged_fixed_point = error_fixed_point < options.fixed_point_atol\n            if converged_fixed_point:\n                la_N0[B_N] = la_N1\n                la_F0[B_F] = la_F1\n                break\n\n'),
+]
+
+MUTANTS += [
+    dict(id="c21-r9-seed", canary=True, what="[seeded by sub-agent] Moreau's fixed point declares convergence as soon as an iterate has all percussions zero ('all contacts separate')", file='cardillo/solver/moreau.py',
+         old='                P_N, P_F = self.prox(u0, P_N, P_F)\n', new='                P_N, P_F = self.prox(u0, P_N, P_F)\n                if not (P_N.any() or P_F.any()):\n                    converged = True\n                    break\n', expect="C21.R9"),
 ]
